@@ -92,6 +92,14 @@ class CheckC12(core.Check):
                             elif any(k > len(PATTERNS[pat]["msgs"]) for k in ps):
                                 kinds.add("Pattern(InvalidPsk)")
                             exp[lab] = (kinds, (pat, role, have_s, have_rs, modstr, res, dh))
+        # a setter called twice is refused (documented: Init(ParameterOverwrite)), whatever else is configured
+        for dup in ("s", "r", "p", "k"):
+            name = "Noise_%spsk0_25519_ChaChaPoly_SHA256" % pat
+            pid = "P%d" % n
+            n += 1
+            c.party(pid, role, name, res="D", rng="script:1", rec="-", s=sk, rs=rk, prologue=b"pl", psks={0: gen_bytes("k", 32)}, dup=dup)
+            lab = c.op("build", pid)
+            exp[lab] = ({"Init(ParameterOverwrite)"}, (pat, role, True, True, "psk0/dup-" + dup, "D", "25519"))
         c.meta["exp"] = exp
         c.info = {"kind": "b"}
         return c
